@@ -1047,8 +1047,7 @@ func (w *_listStructAssemblerRepr) AssembleValue() datamodel.NodeAssembler {
 			}}
 		}
 		field := fields[w.nextIndex]
-		w.doneFields[w.nextIndex] = true
-		w.nextIndex++
+		w.nextIndex++ // (the field is marked as done by AssembleEntry)
 
 		entryAsm, err := (*_structAssembler)(w).AssembleEntry(field.Name())
 		if err != nil {
